@@ -130,6 +130,8 @@ class FakeOS:
     SEEK_SET, SEEK_CUR, SEEK_END = _os.SEEK_SET, _os.SEEK_CUR, _os.SEEK_END
     O_NONBLOCK = _os.O_NONBLOCK
     O_RDWR = _os.O_RDWR
+    O_RDONLY, O_WRONLY, O_CREAT, O_EXCL, O_TRUNC, O_APPEND = _os.O_RDONLY, _os.O_WRONLY, _os.O_CREAT, _os.O_EXCL, _os.O_TRUNC, _os.O_APPEND
+    O_CLOEXEC, O_NOFOLLOW = _os.O_CLOEXEC, _os.O_NOFOLLOW
     devnull = _os.devnull
     error = OSError
     sep = _os.sep
@@ -367,6 +369,8 @@ class FakeOS:
             n = len(data)
             short = s.short_write(p, n) if s.short_write is not None else n
             d = o.obj.data
+            if getattr(o, "append", False):
+                o.offset = len(d)
             d[o.offset:o.offset + short] = data[:short]
             o.offset += short
             o.obj.mtime = s.now
@@ -374,6 +378,39 @@ class FakeOS:
             s.tick()
             return short
         raise SeamLeak("os.write on a %s descriptor" % o.kind)
+
+    def open(self, path, flags, mode=0o777, *, dir_fd=None):
+        """open(2) on the simulated file system: O_CREAT / O_EXCL / O_TRUNC / O_APPEND / access mode; returns a descriptor."""
+        s, t, p = ctx()
+        s.fs_check("open", path)
+        full = s.norm(p, path)
+        n = s.fs.get(full)
+        if n is None:
+            if not flags & _os.O_CREAT:
+                raise FileNotFoundError(errno.ENOENT, "No such file or directory", path)
+            d = full.rsplit("/", 1)[0] or "/"
+            dn = s.fs.get(d)
+            if dn is None or dn.kind != "dir":
+                raise FileNotFoundError(errno.ENOENT, "No such file or directory", path)
+            n = Inode("file", mode & 0o7777 & ~p.umask, p.euid, p.egid)
+            n.path = full
+            n.mtime = s.epoch + s.now
+            s.fs[full] = n
+        else:
+            if flags & _os.O_CREAT and flags & _os.O_EXCL:
+                raise FileExistsError(errno.EEXIST, "File exists", path)
+            if n.kind == "dir":
+                raise IsADirectoryError(errno.EISDIR, "Is a directory", path)
+            if n.kind != "file":
+                raise OSError(errno.ENXIO, "No such device or address", path)
+            if flags & _os.O_TRUNC and (flags & (_os.O_WRONLY | _os.O_RDWR)):
+                del n.data[:]
+        o = OFD("file", n)
+        o.append = bool(flags & _os.O_APPEND)
+        fd = s.alloc_fd(p, o, cloexec=True, lowest=3)
+        s.ev(p.name, "open", (full, flags & (_os.O_CREAT | _os.O_EXCL | _os.O_TRUNC)))
+        s.tick()
+        return fd
 
     def lseek(self, fd, pos, how):
         s, t, p = ctx()
